@@ -6,17 +6,6 @@ From Krrood Require Import Base.Sx Diagram.Ty Diagram.FieldKindSpec Diagram.Diag
   Diagram.FieldKindProofs Diagram.Diagram Diagram.DiagramProofs.
 Import ListNotations.
 
-Lemma dedup_In l : forall seen c, In c (dedup l seen) <-> In c l /\ ~ In c seen.
-Proof.
-  induction l as [|x l IH]; simpl; intros seen c; [tauto|].
-  destruct (mem x seen) eqn:M.
-  - apply mem_In in M. rewrite IH. split; [tauto|]. intros [[->|H] Hn]; tauto.
-  - apply mem_false in M. simpl. rewrite IH. simpl. split.
-    + intros [->|[H1 H2]]; [tauto|]. split; [tauto|]. intro; apply H2; auto.
-    + intros [[->|H1] H2]; [tauto|]. destruct (Pos.eq_dec x c) as [->|Hne]; [tauto|].
-      right. split; auto. intros [->|H3]; tauto.
-Qed.
-
 Lemma wf_order_split pre : forall earlier d suf, wf_order earlier (pre ++ d :: suf) = true ->
   forall b, In b (d_bases d) -> In b earlier \/ In b (names_of pre).
 Proof.
